@@ -71,6 +71,7 @@ macro_rules! reset_instance {
         #[kani::unwind(5)]
         fn $name() {
             reset_syn_step($st, $reset);
+            kani::cover!(true, "end of harness reachable (assumptions satisfiable, no unconditional failure)");
         }
         }
     };
@@ -233,6 +234,7 @@ macro_rules! fin_instance {
         #[kani::unwind(5)]
         fn $name() {
             fin_step($st, $rel);
+            kani::cover!(true, "end of harness reachable (assumptions satisfiable, no unconditional failure)");
         }
         }
     };
